@@ -1,7 +1,11 @@
 package main
 
 import (
+	"encoding/json"
 	"fmt"
+	"os"
+	"os/exec"
+	"path/filepath"
 	"strings"
 
 	"verif/prep"
@@ -60,6 +64,69 @@ func selftest(o opts, engine int) int {
 }
 
 func selftestEngine2(o opts) int {
-	fatal2("engine 2 is not built yet")
-	return 2
+	s, err := prep.Buildsim(o.repo)
+	defer s.Cleanup()
+	if err != nil {
+		fatal2("%v", err)
+	}
+	bad := 0
+	for _, prop := range []string{"C05", "C15", "C20"} {
+		oo := o
+		oo.prop = prop
+		gendir := filepath.Join(s.Dir, "gen-"+prop)
+		genJSON := filepath.Join(s.Dir, "genout-"+prop+".json")
+		cmd := exec.Command(s.Worker, "genbatch", "-prop", prop, "-seed", fmt.Sprint(o.seed), "-to", "12", "-file", gendir, "-out", genJSON)
+		cmd.Dir = s.Dir
+		if out, err := cmd.CombinedOutput(); err != nil {
+			fatal2("genbatch: %v\n%s", err, out)
+		}
+		var g genOut
+		b, _ := os.ReadFile(genJSON)
+		_ = json.Unmarshal(b, &g)
+		var items []prep.ProbeItem
+		for _, it := range g.Items {
+			if it.Exit == 0 {
+				items = append(items, prep.ProbeItem{Name: it.Name, CType: it.CType, CCtor: it.CCtor})
+			}
+		}
+		probe, _, _, err := prep.Probe(s, gendir, items, prop == "C20")
+		if err != nil {
+			fatal2("%v", err)
+		}
+		cases := 1600
+		if o.cases > 0 {
+			cases = o.cases
+		}
+		var logs []string
+		for _, spec := range []struct{ workers int; procs string }{{16, "16"}, {7, "4"}, {16, "1"}, {3, "16"}} {
+			oo.workers = spec.workers
+			os.Setenv("GOMAXPROCS", spec.procs)
+			m := runProbeWorkers(s, probe, oo, cases, 900, prop == "C20", "-eventlog", "-shrink", "0")
+			logs = append(logs, strings.Join(m.eventLogs, "\n"))
+		}
+		os.Unsetenv("GOMAXPROCS")
+		same := true
+		for _, l := range logs[1:] {
+			if l != logs[0] {
+				same = false
+			}
+		}
+		fmt.Printf("selftest engine2 %s: %d cases x {16w/16p, 7w/4p, 16w/1p, 3w/16p}: event logs identical=%v (%d lines)\n", prop, cases, same, len(strings.Split(logs[0], "\n")))
+		if !same {
+			bad++
+			for i, l := range logs[1:] {
+				a, b := strings.Split(logs[0], "\n"), strings.Split(l, "\n")
+				for k := 0; k < len(a) && k < len(b); k++ {
+					if a[k] != b[k] {
+						fmt.Printf("  first difference vs run %d: %q vs %q\n", i+1, a[k], b[k])
+						break
+					}
+				}
+			}
+		}
+	}
+	if bad > 0 {
+		fatal2("same-seed runs diverged: engine 2 is not deterministic")
+	}
+	return 0
 }
